@@ -20,7 +20,7 @@
 //   dump K               every symbol slot + stacks                -> dump=...
 //   out K                captured output of context K since last call -> out=<hex>
 //   unparse X            Executable::unparse                       -> txt=<hex>
-//   tok <hex> <sizes>    token stream under a fragmentation        -> <code>:<hex>,...
+//   tok <hex> <sizes|lines:max|sr|->  token stream under a fragmentation -> toks=<code>:<hex>,...
 #include <blocc/context.h>
 #include <blocc/parser.h>
 #include <blocc/string_reader.h>
@@ -412,7 +412,10 @@ static std::string doOp(const std::string& op) {
     if (spec.compare(0, 6, "lines:") == 0) { lineMode = true; maxl = atoi(spec.c_str() + 6); }
     else if (spec != "-") for (auto& s : split(spec, ',')) sizes.push_back(atoi(s.c_str()));
     FragReader reader(hexdec(a.at(1)), sizes, lineMode, maxl);
-    Parser* p = Parser::createInteractiveParser(c, reader);
+    // BEGIN C13: `sr` = the library's own StringReader (drops CR, line discipline, 1023 bytes per call)
+    StringReader sreader(hexdec(a.at(1)));
+    Parser* p = spec == "sr" ? Parser::createInteractiveParser(c, sreader) : Parser::createInteractiveParser(c, reader);
+    // END C13
     std::string o;
     try {
       for (;;) {
